@@ -24,7 +24,7 @@ type Case struct {
 	Ops     []hx.Op  `json:"ops"`
 }
 
-var kinds = []string{"add", "add", "add", "add", "add", "add", "remove", "remove", "purge", "get", "list"}
+var kinds = []string{"add", "add", "add", "add", "add", "add", "remove", "remove", "purge", "get", "list", "addfail"}
 var sizes = []int{1, 60, 100, 300, 300, 500, 700, 1000, 1100, 1500, 2100}
 
 var prop = hx.Prop[Case]{
@@ -46,7 +46,7 @@ var prop = hx.Prop[Case]{
 		mg := hx.SizedMsgGen(sizes)
 		c.Ops = rapid.SliceOfN(rapid.Custom(func(t *rapid.T) hx.Op {
 			op := og.Draw(t, "op")
-			if op.K == "add" {
+			if op.K == "add" || op.K == "addfail" {
 				op.Msg = mg.Draw(t, "m")
 			}
 			return op
@@ -147,7 +147,7 @@ var propDrift = hx.Prop[DCase]{
 		mg := hx.SizedMsgGen(sizes)
 		c.Tail = rapid.SliceOfN(rapid.Custom(func(t *rapid.T) hx.Op {
 			op := og.Draw(t, "op")
-			if op.K == "add" {
+			if op.K == "add" || op.K == "addfail" {
 				op.Msg = mg.Draw(t, "m")
 			}
 			return op
